@@ -326,6 +326,16 @@ def r3(ctx):
            pat.A("is not", "self.getOwner()", "None") in s_[1]]
     ra = [s_ for s_ in src if s_[0] == "self.getRankAttrs().getFormat()" and
           pat.A("is", "self.getOwner()", "None") in s_[1]]
+    # a source that is consulted is one that is there: `X.getFormat()` under
+    # `X is None` is a contradiction
+    for val, ats in src:
+        if val.endswith(".getFormat()"):
+            recv = val[:-len(".getFormat()")]
+            if pat.A("is", recv, "None") in ats:
+                ctx.bad("C07.R3", f, f.node, "the format is read from `%s` on the "
+                        "path where `%s is None`: every walk of such a fiber raises"
+                        % (val, recv), text_="__iter__ format source present")
+                ra = []
     if own and ra:
         ctx.ok("C07.R3", f, f.node, "format read from the owner when owned, "
                "else from the fiber's rank attributes", text_="__iter__ format source")
